@@ -22,6 +22,9 @@ def masks_sym(p):
     cover("converged", conv)
     filt, dead, touched = expected_masks(layout, b1, b2, v, opts, mode)
     cover("some_bin_filtered", and_(conv, or_(*filt), not_(and_(*filt))))
+    if opts.get("mad_max"):
+        f0 = expected_masks(layout, b1, b2, v, dict(opts, mad_max=0), mode)[0]
+        cover("dropped_by_mad_only", and_(conv, or_(*[and_(a, not_(b_)) for a, b_ in zip(filt, f0)])))
     cover("nothing_left", and_(conv, dead[0]))
     if bool(conv):
         ws = [SReal.of(x) for x in bias]
@@ -75,6 +78,11 @@ def _cases(tier):
                       ((4,), 3, "genome", 1, tol, False, 2)]
     for layout, K, mode, iters, tol, bl, vmax in specs:
         out.append(dict(layout=list(layout), K=K, mode=mode, max_iters=iters, tol=tol, blacklist=bl, vmax=vmax, concrete_positions=True))
+    # MAD-max filter switched on (data enumerated by solver forks, so log/exp/median run on concrete floats; thresholds symbolic)
+    for layout, mode, mad in ([((3,), "genome", 1), ((2, 2), "genome", 1)] if tier == "quick" else
+                              [((3,), "genome", 1), ((2, 2), "genome", 1), ((2, 2), "cis", 1), ((4,), "genome", 2), ((1, 3), "genome", 1), ((2, 2), "trans", 1)]):
+        out.append(dict(layout=list(layout), K=2, mode=mode, max_iters=2, tol=0.5, blacklist=False, vmax=3 if tier == "quick" else 4,
+                        concrete_positions=True, mad_max=mad))
     # positions symbolic as well (heavier non-linear queries): one small case
     out.append(dict(layout=[2], K=1, mode="genome", max_iters=1, tol=0.5, blacklist=False, vmax=3, concrete_positions=False))
     return out
@@ -88,19 +96,23 @@ def _conv_all(stats):
 
 
 CHECKS = [
-    Check("mask_set", _cases, masks_sym, masks_real, labels=("converged", "some_bin_filtered", "nothing_left"),
+    Check("mask_set", _cases, masks_sym, masks_real, labels=("converged", "some_bin_filtered", "nothing_left", "dropped_by_mad_only"),
           doc="balance_cooler (genome-wide / cis / trans, <=2 sweeps) on symbolic symmetric pixel tables with solver-chosen ignore_diags, min_nnz, "
               "min_count, blacklist: in a converged run the NaN bins are exactly the union of the documented filters (or everything in a scope "
               "without data); every other bin has a finite positive weight",
-          bounds=dict(quick="n<=3 bins, <=2 chromosomes, K=2 pixels with counts 1..3, 1-2 sweeps, tol in {0.5, 1e-5}, mad_max=0; pixel positions and counts "
+          bounds=dict(quick="n<=3 bins, <=2 chromosomes, K=2 pixels with counts 1..3, 1-2 sweeps, tol in {0.5, 1e-5}, mad_max in {0, 1} (thorough: 2); pixel positions and counts "
                             "are enumerated by solver forks (the iteration is non-linear in them: z3 returns unknown otherwise), thresholds/options symbolic",
                       thorough="n<=4, K=3"),
           stubs=("weights as exact reals + NaN flag; sqrt as its defining constraint r>=0, r*r=x", "E3", "E4"),
-          outside=("MAD-max filter (log/exp/median of floats)", "flatness after iterating from an arbitrary start (float loop with data-dependent trip count)",
+          outside=("MAD-max with symbolic data (log/exp/median are evaluated on the enumerated concrete data only; a bin whose marginal lies on the "
+                   "cut-off to 1e-9 is not asserted)", "flatness after iterating from an arbitrary start (float loop with data-dependent trip count)",
                    "status of a bin no filter hits whose own filtered marginal is zero"), timeout=3000, split_depth=7),
 ]
 
 MUTANTS = [
+    dict(name="MAD-max: per-chromosome normalisation lost", file="_balance.py", old="            marg[lo:hi] /= np.median(c_marg[c_marg > 0])",
+         new="            c_marg = c_marg / np.median(c_marg[c_marg > 0])", checks=["mask_set"]),
+    dict(name="MAD-max: cut-off on the wrong side", file="_balance.py", old="        bias[marg < cutoff] = 0", new="        bias[marg > cutoff] = 0", checks=["mask_set"]),
     dict(name="diagonal filter off by one (<=)", file="_balance.py", old='    mask = np.abs(pixels["bin1_id"] - pixels["bin2_id"]) < n_diags', new='    mask = np.abs(pixels["bin1_id"] - pixels["bin2_id"]) <= n_diags', checks=["mask_set"]),
     dict(name="min_nnz threshold <=", file="_balance.py", old="        bias[marg_nnz < min_nnz] = 0", new="        bias[marg_nnz <= min_nnz] = 0", checks=["mask_set"]),
     dict(name="min_count threshold <=", file="_balance.py", old="        bias[marg < min_count] = 0", new="        bias[marg <= min_count] = 0", checks=["mask_set"]),
